@@ -14,6 +14,10 @@ relations of the property are the edges, executed on the real calculator and com
   energy              wavelength=w vs energy=neutron_energy(w)
   vector              entry i of the vector call == scalar call at the i-th wavelength (lengths 1..5, repeated
                       and unsorted wavelengths, with and without table-driven atoms)
+  objects             the caller keeps ONE Formula F (own density): F with density= / natural_density= overrides,
+                      with a vector, after the caller's own F.density update, and as operand of n*F, F+G, formula(F)
+                      (every intermediate observed before it is used); F alone gives the base result again and
+                      no kept Formula is altered; vectors of one length share ONE buffer refilled in place
   invariants          rho_im, rho_inc, Sigma_coh, Sigma_abs, Sigma_inc, t_u >= 0 in every state visited
   conversions         E lambda^2 and v lambda constant on a 40-point log grid, round trips, the documented
                       anchor 1.798 A = 2200 m/s = 25.3 meV (to the printed digits), vector == scalar
@@ -36,15 +40,20 @@ META = dict(
               "grid sweep of the unit conversions",
     rule=("a state is (compound, density, wavelength); an edge is one related second run of the real calculator; "
           "every state of the bound gets every edge of its kind; structure edges enumerate every distinct "
-          "(permutation, bracketing, group multiplier, construction form) of a fragment multiset; non-trivial = the "
+          "(permutation, bracketing, group multiplier, construction form) of a fragment multiset; object edges are "
+          "one fixed session of calls on a Formula the caller keeps (overrides, in-place density update, use as "
+          "operand) in which every call is related to the base result; non-trivial = the "
           "edge changes the input (k != 1, non-identity permutation, non-flat tree, other constructor, vector)"),
     bound=dict(
         quick="scale/energy/vector edges: all one-atom compounds and all pairs over the 32-atom class alphabet x 9 "
               "count pairs, 2 densities, 7 global wavelengths + selected table points; structure edges: all fragment "
-              "multisets of size <= 3 over 9 atoms and of size 4 over 3 atoms, all permutations x bracketings x "
-              "group multipliers {1,2} x {string, nested list, dict}; conversions on 40 log-spaced points",
+              "multisets of size <= 3 over 9 atoms, of size 4 over 3 atoms and of size 2..3 over 4 atoms that differ "
+              "only in charge or only in isotope (O, O{2-}, O[18], O[18]{2-}), all permutations x bracketings x "
+              "group multipliers {1,2} x {string, nested list, dict}, each at density= and natural_density= (ions "
+              "included); object sessions: all one-atom compounds and all pairs over the class alphabet (counts 1, 2) "
+              "x up to 2 wavelengths; conversions on 40 log-spaced points",
         thorough="as quick with every 3rd table node/midpoint in the scale/energy edges, structure edges for all "
-                 "multisets of size <= 3 over 9 atoms and of size 4 over 6 atoms"),
+                 "multisets of size <= 3 over 9 atoms and of size 4 over 6 atoms; object sessions for all 9 count pairs"),
     assumptions=[
         "scales for the comparison (sum of magnitudes) come from the independent reference mc/ref/neutron.py; "
         "the expected value of an edge is always the library's own second run",
@@ -52,7 +61,12 @@ META = dict(
         "the anchor is compared to its printed digits only: 1.798 (3 decimals), 2200 (to the unit), 25.3 (1 decimal)",
         "E = 1/2 m v^2 between the velocity and the energy conversion is not asserted separately (the statement "
         "links them through the anchor only)",
-        "vectors are numpy float arrays; every 7th vector is also given as a plain list (as the library's own tests do)",
+        "vectors are numpy float arrays; every 7th vector is given as a plain list (as the library's own tests do); "
+        "wavelength vectors of one length and kind are ONE caller-owned object refilled in place (a wrong entry is "
+        "attributed to the refill when a fresh vector of the same contents is right); energy vectors are fresh",
+        "a Formula the caller keeps must have the same structure, density and name after a call as before (documented "
+        "attributes only; private memo attributes are not looked at)",
+        "natural_density of ions and isotope ions: the natural atom keeps the charge (as in C03)",
     ],
     level_text="bounded-exhaustive over the compound graph and its edges; grid for the real parameters",
     level_note="trusted base: numpy float arithmetic and the scale computation in mc/ref/neutron.py",
@@ -66,6 +80,7 @@ NONNEG = ("rho_im", "rho_inc", "xs_coh", "xs_abs", "xs_inc", "penetration")
 A9 = c03.K9
 A3 = (("H", 0, 0), ("Gd", 157, 0), ("O", 18, -2))
 A6 = (("H", 0, 0), ("H", 2, 0), ("O", 0, 0), ("V", 0, 0), ("Gd", 157, 0), ("O", 18, -2))
+AC = (("O", 0, 0), ("O", 0, -2), ("O", 18, 0), ("O", 18, -2))     # atoms that differ only in charge / only in isotope
 POS_COUNTS = (1, 2, 0.5, 3)
 
 
@@ -162,6 +177,10 @@ def leaves(tree):
 
 
 # ------------------------------------------------------------------ the edge runner
+class _Broken(Exception):
+    """a session on shared objects reached a violating state: nothing is explored beyond it"""
+
+
 class Edges(object):
     def __init__(self, acc, tier="quick"):
         self.acc = acc
@@ -205,14 +224,14 @@ class Edges(object):
                 out[k] = None
         return out
 
-    def invariants(self, flat, case, cls, src):
+    def invariants(self, flat, case, cls, src, standalone=None):
         """non-negativity in a visited state (scalars)."""
         self.acc.count("invariant_checks")
         for k in NONNEG:
             x = flat[k]
             if x is None or isinstance(x, complex) or not (x >= 0):
                 self.acc.violation("negative:%s:%s" % (k, cls), case, "%s >= 0" % k, repr(x),
-                                   standalone=self.snippet([src]))
+                                   standalone=standalone or self.snippet([src]))
                 return False
         return True
 
@@ -385,7 +404,15 @@ class Edges(object):
                 else:
                     arg = self.nsf.neutron_energy(np.array(vec, dtype=float))
                     vsrc = "%s, density=%r, energy=nsf.neutron_energy(np.array(%r))" % (src, d, vec)
+                    ebytes = arg.tobytes()
                 st, V = self.call(comp, src, {"density": d, how: arg}, None)
+                if how == "energy" and arg.tobytes() != ebytes:
+                    acc.violation("argument-altered:energy-array", case, "the caller's vector unchanged",
+                                  repr(arg.tolist()),
+                                  standalone="import numpy as np\nimport periodictable as pt\nfrom periodictable import nsf\n"
+                                             "e = nsf.neutron_energy(np.array(%r))\nprint(e)\n"
+                                             "pt.neutron_scattering(%s, density=%r, energy=e)\nprint(e)\n" % (vec, src, d))
+                    continue
                 if how == "wavelength":
                     after = list(arg) if bkind == "list" else arg.tobytes()
                     if after != before or (bkind == "list" and any(type(x) is not float for x in arg)):
@@ -396,8 +423,10 @@ class Edges(object):
                                                  % (lit(vec), src, d))
                         del buffers[slot]
                         continue
-                if prev is not None and prev != list(vec) and \
-                        not self._vector_check(frags, comp, src, d, cls, case, vec, how, st, V, vsrc, scalars, True):
+                if prev is not None and prev != list(vec):
+                    if self._vector_check(frags, comp, src, d, cls, case, vec, how, st, V, vsrc, scalars, True):
+                        acc.outcome("vector in a buffer refilled in place (%s)" % bkind)
+                        continue
                     # wrong after the refill: is a fresh vector with the same contents right?
                     fresh = list(vec) if bkind == "list" else np.array(vec, dtype=float)
                     st0, V0 = self.call(comp, src, {"density": d, how: fresh}, None)
@@ -430,9 +459,7 @@ class Edges(object):
                 acc.violation("vector-shape:%s" % cls, case, "every output of shape (%d,)" % len(vec),
                               repr(shapes), standalone=self.snippet([vsrc]))
             return False
-        if not quiet:
-            acc.outcome("vector length %d (%s%s)" % (len(vec), cls, ", repeated" if len(set(vec)) < len(vec)
-                                                     else ""))
+        acc.outcome("vector length %d (%s%s)" % (len(vec), cls, ", repeated" if len(set(vec)) < len(vec) else ""))
         for i, w in enumerate(vec):
             if w not in scalars:
                 ssrc = "%s, density=%r, wavelength=%r" % (src, d, w)
@@ -454,12 +481,171 @@ class Edges(object):
                 if any(B[k] is None or isinstance(B[k], complex) or not (B[k] >= 0) for k in NONNEG) or \
                         rn.compare(ref, (S, B), rel=tol[0], rel_sigma=tol[1]):
                     return False
+                acc.transitions += 1
+                acc.traces += 1
+                acc.count("invariant_checks")
                 continue
             if not self.invariants(B, c2, cls, vsrc):
                 return False
             if not self.relate("vector-entry", ref, S, B, 1.0, 1.0, tol[0], tol[1], c2, cls, [ssrc, vsrc]):
                 return False
         return True
+
+    # ---- (E) edges on caller-owned objects: one Formula kept by the caller, used as argument and as operand
+    def object_wavelengths(self, frags):
+        pts = [4.75]
+        for sym, a in self.ck.table_atoms(frags)[:1]:
+            g = sorted(self.ck.table_grid(sym, a)[2:])
+            pts.append(g[len(g) // 2 | 1][0])
+        return pts
+
+    @staticmethod
+    def _fsnap(f):
+        """caller-visible state of a Formula (documented attributes)"""
+        return dict(structure=f.structure, density=f.density, name=f.name)
+
+    def object_edges(self, frags, d0=2.33):
+        frags = c03.norm_frags(frags)
+        self.data.clear_cache()
+        for w in self.object_wavelengths(frags):
+            try:
+                self._object_session(frags, d0, w)
+            except _Broken:
+                pass
+
+    def _object_session(self, frags, d0, w):
+        """The caller builds ONE Formula F (own density d0) and keeps it: F is passed with density overrides, with a
+        natural-density override, with a vector, after the caller's own update of F.density, and is used as operand
+        of n*F, F+G and formula(F) - every intermediate is passed to the calculator (observed) before it is used as
+        an operand.  After every call F and every other kept Formula must be as the caller left them, and F alone
+        must give the base result again."""
+        acc = self.acc
+        pt = self.pt
+        cls = self.cls(frags)
+        jf = [[c, list(k)] for c, k in frags]
+        case = dict(kind="object", frags=jf, density=d0, wavelength=w)
+        comp, lsrc = self.compound_args(frags)
+        ref = self.data.evaluate(frags, d0, w)
+        lines = ["import numpy as np", "import periodictable as pt"]
+        kept = {}
+        acc.states += 1
+        acc.nontrivial += 1
+
+        def keep(name, obj, code):
+            lines.append("%s = %s" % (name, code))
+            kept[name] = (obj, self._fsnap(obj))
+            return obj
+
+        def run(edge, name, obj, kw, kwsrc, base, fa, refv=None, index=None):
+            lines.append("print(pt.neutron_scattering(%s, %s))" % (name, kwsrc))
+            snippet = "\n".join(lines) + "\n"
+            c2 = dict(case, edge=edge)
+            st, R = self.call(obj, None, kw, None)
+            if st == "exc":
+                acc.violation("raises:%s:%s" % (edge, cls), c2, "a result", R, standalone=snippet)
+                raise _Broken()
+            for nm, (o, snap) in kept.items():
+                now = self._fsnap(o)
+                if now != snap:
+                    which = [k for k in sorted(snap) if snap[k] != now[k]][0]
+                    acc.violation("argument-altered:formula.%s" % which, c2,
+                                  "%s.%s as the caller left it: %r" % (nm, which, snap[which]), repr(now[which]),
+                                  standalone=snippet + "print(%s.%s)\n" % (nm, which),
+                                  detail=dict(after_edge=edge, cls=cls))
+                    raise _Broken()
+            R = self.scalarize(R, index)
+            if not self.invariants(R, c2, cls, None, standalone=snippet):
+                raise _Broken()
+            if base is not None and not self.relate(edge, refv or ref, base, R, fa, fa, 1e-12, 1e-12, c2, cls, None,
+                                                    standalone=snippet):
+                raise _Broken()
+            acc.outcome("edge:" + edge)
+            return R
+
+        def observe(name, obj, base, fa):
+            """read everything that could be memoised on the object, before the object is used as an operand; the
+            formula's own neutron_sld method must give the SLD part of the base result"""
+            code = "%s.atoms, %s.mass, str(%s), %s.hill, %s.charge" % ((name,) * 5)
+            if obj.density is not None:
+                code += ", %s.natural_density, %s.neutron_sld(wavelength=%r)" % (name, name, w)
+            lines.append("print(%s)" % code)
+            snippet = "\n".join(lines) + "\n"
+            c2 = dict(case, edge="formula-method")
+            try:
+                obj.atoms, obj.mass, str(obj), obj.hill, obj.charge
+                sld = None
+                if obj.density is not None:
+                    obj.natural_density
+                    self.acc.evaluations += 1
+                    with np.errstate(all="ignore"):
+                        sld = obj.neutron_sld(wavelength=w)
+                    sld = [float(x) for x in sld]
+            except Exception as e:
+                acc.violation("raises:formula-method:%s" % cls, c2, "values", "%s: %s" % (type(e).__name__, e),
+                              standalone=snippet)
+                raise _Broken()
+            if sld is not None and base is not None:
+                R = dict((k, (base[k] * fa if k != "penetration" else base[k] / fa)) for k in rn.OUTPUTS)
+                R.update(rho_re=sld[0], rho_im=sld[1], rho_inc=sld[2])
+                if not self.relate("formula-method", ref, base, R, fa, fa, 1e-12, 1e-12, c2, cls, None,
+                                   standalone=snippet):
+                    raise _Broken()
+
+        wsrc = "wavelength=%r" % w
+        A0 = run("base", lsrc, comp, dict(density=d0, wavelength=w), "density=%r, %s" % (d0, wsrc), None, 1.0)
+        F = keep("F", pt.formula(comp, density=d0), "pt.formula(%s, density=%r)" % (lsrc, d0))
+        A = run("construct-formula", "F", F, dict(wavelength=w), wsrc, A0, 1.0)
+        observe("F", F, A, 1.0)
+        # overrides on the kept object, and the object alone again
+        for k in SCALE_K:
+            run("density-scale", "F", F, dict(density=d0 * k, wavelength=w), "density=%r, %s" % (d0 * k, wsrc), A, k)
+            run("repeat-after-density-override", "F", F, dict(wavelength=w), wsrc, A, 1.0)
+        dn = self.data.compound_density(frags, ("natural", d0))
+        refn = self.data.evaluate(frags, dn, w)
+        N0 = run("base", lsrc, comp, dict(natural_density=d0, wavelength=w), "natural_density=%r, %s" % (d0, wsrc),
+                 None, 1.0)
+        run("construct-formula", "F", F, dict(natural_density=d0, wavelength=w), "natural_density=%r, %s" % (d0, wsrc),
+            N0, 1.0, refv=refn)
+        run("repeat-after-natural-density-override", "F", F, dict(wavelength=w), wsrc, A, 1.0)
+        w2 = 1.798 if w != 1.798 else 4.75
+        run("vector-entry", "F", F, dict(wavelength=np.array([w2, w])), "wavelength=np.array(%r)" % ([w2, w],), A, 1.0,
+            index=1)
+        run("repeat-after-vector-call", "F", F, dict(wavelength=w), wsrc, A, 1.0)
+        # the caller's own update of the density, in place
+        for k in (2.0, 1.0):
+            F.density = d0 * k
+            lines.append("F.density = %r" % (d0 * k))
+            kept["F"] = (F, self._fsnap(F))
+            run("own-density-update", "F", F, dict(wavelength=w), wsrc, A, k)
+            observe("F", F, A, k)
+        # F as operand; every intermediate is observed before it is used
+        for n in COUNT_C:
+            G = keep("G", n * F, "%r*F" % n)
+            run("count-scale-formula", "G", G, dict(wavelength=w), wsrc, A, 1.0)
+        G = keep("G", 2.0 * F, "2.0*F")
+        observe("G", G, A, 1.0)
+        run("count-scale-formula", "G", G, dict(wavelength=w), wsrc, A, 1.0)
+        H = keep("H", 0.25 * G, "0.25*G")
+        observe("H", H, A, 1.0)
+        run("count-scale-formula", "H", H, dict(wavelength=w), wsrc, A, 1.0)
+        S = keep("S", G + H, "G + H")
+        observe("S", S, None, 1.0)
+        run("add-formula", "S", S, dict(density=d0, wavelength=w), "density=%r, %s" % (d0, wsrc), A, 1.0)
+        C = keep("C", pt.formula(F), "pt.formula(F)")
+        observe("C", C, A, 1.0)
+        run("copy-formula", "C", C, dict(wavelength=w), wsrc, A, 1.0)
+        C2 = keep("C2", pt.formula(F, density=d0 * 2.0), "pt.formula(F, density=%r)" % (d0 * 2.0))
+        run("copy-formula", "C2", C2, dict(wavelength=w), wsrc, A, 2.0)
+        if len(frags) > 1:
+            c1, s1 = self.compound_args(frags[:1])
+            c2_, s2 = self.compound_args(frags[1:])
+            F1 = keep("F1", pt.formula(c1), "pt.formula(%s)" % s1)
+            F2 = keep("F2", pt.formula(c2_, density=d0), "pt.formula(%s, density=%r)" % (s2, d0))
+            observe("F1", F1, None, 1.0)
+            observe("F2", F2, None, 1.0)
+            P = keep("P", F1 + F2, "F1 + F2")
+            run("add-formula", "P", P, dict(density=d0, wavelength=w), "density=%r, %s" % (d0, wsrc), A, 1.0)
+        run("repeat-after-use-as-operand", "F", F, dict(wavelength=w), wsrc, A, 1.0)
 
     # ---- (C) structure edges of one fragment multiset
     def structure_wavelengths(self, frags):
@@ -740,6 +926,8 @@ def shard(args):
             ed.vector_edges(frags)
         elif kind == "structure":
             ed.structure_edges(frags)
+        elif kind == "object":
+            ed.object_edges(frags)
         else:
             raise MachineryError(kind)
         acc.count("compounds:" + kind)
@@ -748,8 +936,22 @@ def shard(args):
     return acc
 
 
+def object_items(quick):
+    """compounds of the sessions on caller-owned objects: every one-atom compound and every pair over K (quick: one
+    count pair; thorough: all nine)"""
+    out = [[(1, k)] for k in K]
+    for i in range(len(K)):
+        for j in range(i + 1, len(K)):
+            for ca, cb in (((1, 2),) if quick else [(a, b) for a in COUNTS for b in COUNTS]):
+                out.append([(ca, K[i]), (cb, K[j])])
+    return out
+
+
 def structure_items(quick):
     items = []
+    for n in (2, 3):
+        items += [m for m in multisets(AC, n) if len(set(k for c, k in m)) > 1
+                  and not set(k for c, k in m) <= set(A9)]             # those are among the A9 multisets already
     if quick:
         for n in (1, 2, 3):
             items += multisets(A9, n)
@@ -763,7 +965,7 @@ def structure_items(quick):
 
 def run(ctx):
     data = rn.NeutronData()
-    for k in K + A9 + A3 + A6:
+    for k in K + A9 + A3 + A6 + AC:
         if data.has_data(k) is not True:
             raise MachineryError("alphabet atom %r has no data" % (k,))
     tier = ctx.tier
@@ -777,6 +979,10 @@ def run(ctx):
     sw = [math.factorial(len(f)) * (1, 1, 3, 11)[len(f) - 1] for f in sitems]
     for chunk in c03._balanced(sitems, sw, 2 * nsh):
         jobs.append(("structure", chunk, tier))
+    oitems = object_items(ctx.quick)
+    ow = [c03._weight(data, [k for c, k in f]) ** 0.25 for f in oitems]
+    for chunk in c03._balanced(oitems, ow, nsh):
+        jobs.append(("object", chunk, tier))
     ctx.pmap(shard, rotate(jobs, ctx.seed))
     ctx.acc.info["max_fragments"] = 4
     ctx.acc.info["trees_per_size"] = [len(trees([(1, ("H", 0, 0))] * n)) for n in (1, 2, 3, 4)]
@@ -799,6 +1005,8 @@ def replay(ctx, case, signature=None):
         ed.vector_edges(frags, case.get("density", 1.0))
     elif kind == "structure":
         ed.structure_edges(frags)
+    elif kind == "object":
+        ed.object_edges(frags, case.get("density", 2.33))
     else:
         raise MachineryError("unknown case kind %r" % kind)
     if signature:
